@@ -364,8 +364,22 @@ def gen_op(rng, w, stats):
     mine = holdings(s, c)
     anyq = [u for u in users if s["q"][u]]
     anyh = [u for u in users if holdings(s, u)]
+    _pend = w.__dict__.setdefault("pending", [])
+    if _pend:
+        return _pend.pop(0)
     if s["paused"] and rng.random() < 0.6:
         return ["SetPaused", OWNER, False]
+    if not w.__dict__.get("long_queue") and anyh and not s["paused"] and rng.random() < 0.02:
+        # a queue LONGER than the per-call claim cap (20 entries): 21..23 small early unlocks by one user, then a cancel
+        # (everything must come back) or a claim after the unbond period (at most 20 per call, the rest stays queued)
+        u = rng.choice(anyh)
+        e, v = max(holdings(s, u), key=lambda t: t[1])
+        if e > now and v >= 1000:
+            w.long_queue = True
+            n = rng.choice([21, 22, 23])
+            _pend.extend([["UnlockEarly", u, e, max(1, v // 100)] for _ in range(n - 1)])
+            _pend.append(["Cancel", u] if rng.random() < 0.6 else ["Advance", 40])
+            return ["UnlockEarly", u, e, max(1, v // 100)]
     # ---- out-of-phase / unauthorised / malformed share
     if roll < 0.11:
         kind = rng.randint(0, 9)
